@@ -1,20 +1,36 @@
 #!/usr/bin/env python3
 """false-alarm regression: every behaviour-preserving refactoring under neutral/<group>/n*.diff
 (written by independent agents that never saw /verif; each compiled and passed the repo's tests)
-must leave every check at exit 0.  Scratch copies only.  usage: check_neutral.py [group ...]"""
+must leave the checks at exit 0.  neutral/<group>/checks.txt names the checks whose anchors the
+group touches (default: all).  Scratch copies only.  usage: check_neutral.py [-j N] [group ...]"""
 import glob, os, subprocess, sys
+from concurrent.futures import ThreadPoolExecutor
 V = os.path.dirname(os.path.dirname(os.path.abspath(__file__)))
-groups = sys.argv[1:] or sorted(os.path.basename(g) for g in glob.glob(os.path.join(V, 'neutral', '*')))
-bad = 0
-n = 0
+args = sys.argv[1:]
+jobs = 4
+if args and args[0] == '-j':
+    jobs = int(args[1]); args = args[2:]
+groups = args or sorted(os.path.basename(g) for g in glob.glob(os.path.join(V, 'neutral', '*')))
+work = []
 for g in groups:
+    cf = os.path.join(V, 'neutral', g, 'checks.txt')
+    checks = open(cf).read().split() if os.path.exists(cf) else []
     for p in sorted(glob.glob(os.path.join(V, 'neutral', g, 'n*.diff')), key=lambda x: int(os.path.basename(x)[1:-5])):
-        n += 1
-        r = subprocess.run([os.path.join(V, 'tools', 'try_patch.py'), p], stdout=subprocess.PIPE, stderr=subprocess.STDOUT, text=True)
-        ok = 'worst exit 0' in r.stdout
-        print('%s/%s %s' % (g, os.path.basename(p), 'silent' if ok else 'ALARM'))
+        work.append((g, p, checks))
+
+
+def one(item):
+    g, p, checks = item
+    r = subprocess.run([os.path.join(V, 'tools', 'try_patch.py'), p] + checks, stdout=subprocess.PIPE, stderr=subprocess.STDOUT, text=True)
+    return g, p, 'worst exit 0' in r.stdout, r.stdout
+
+
+bad = 0
+with ThreadPoolExecutor(max_workers=jobs) as ex:
+    for g, p, ok, out in ex.map(one, work):
+        print('%s/%s %s' % (g, os.path.basename(p), 'silent' if ok else 'ALARM'), flush=True)
         if not ok:
             bad += 1
-            print(r.stdout[-1200:])
-print('neutral corpus: %d patches, %d alarms' % (n, bad))
+            print(out[-1200:])
+print('neutral corpus: %d patches, %d alarms' % (len(work), bad))
 sys.exit(1 if bad else 0)
